@@ -271,9 +271,18 @@ class Interp:
                 val = self.eval(v[2])
             finally:
                 self.frames.pop()
+            if isinstance(val, (PyDict, PyList, PySet)):
+                # module-level container: reading it (constant tables) is fine; a function that modifies it keeps
+                # state between calls, which a single-call contract cannot speak about -> outside the subset
+                val.module_level = f"{module.name}.{name}"
             module.set_cached(name, val)
             return val
         return v
+
+    def check_mutable(self, obj):
+        nm = getattr(obj, "module_level", None)
+        if nm:
+            raise Outside(f"module-level state {nm} is modified (state kept between calls)")
 
     def class_attr(self, cls: ClassInfo, name):
         """Class-level attribute (enum member, constant, method)."""
@@ -609,6 +618,7 @@ class Interp:
         return None
 
     def dict_set(self, d: PyDict, key, value):
+        self.check_mutable(d)
         if hasattr(d, "entries"):  # recording accumulator of a per-row loop body (sqlmodel.RecDict)
             d.entries.append((key, value))
             return
@@ -1350,6 +1360,7 @@ class Interp:
         raise Outside(f"setitem on {type(v).__name__}")
 
     def delitem(self, v, k):
+        self.check_mutable(v)
         if isinstance(v, PyDict):
             tok = self.key_token(k)
             if tok is None:
